@@ -22,6 +22,61 @@ def one_file(ctx, data, kinds, R, M, nts, lines, pending):
         lines.append('index %d %d %d %s' % (R, M, nt, data.hex()))
     lines.append('scanfile %s' % data.hex())
     pending.append(({'file': data.hex(), 'tokens': kinds, 'R': R, 'M': M}, results, data, nts))
+    # the same indexing with all of the package's logging (every trace depth) switched on: the index must be the same
+    if ctx.rng.random() < (0.5 if len(data) < 4000 else 0.1):
+        with ic.verbose_logging():
+            rv = ic.run_indexer(path, nts[0])
+        ctx.count('indexed_again_with_trace_logging')
+        if rv != results[nts[0]]:
+            ctx.violation('C08/index-depends-on-log-level', 'with trace logging enabled the index is %s, without %s (workers=%d)'
+                          % (str(rv[:2])[:150], str(results[nts[0]][:2])[:150], nts[0]),
+                          {'file': data.hex(), 'tokens': kinds, 'R': R, 'M': M, 'num_threads': nts[0], 'logging': 'point_one logger at level 1'})
+
+
+def reindex_histories(ctx):
+    """Index with the default options (an index file is saved and a later call may load it), change the file, index again:
+    the second index must be that of the NEW content - whatever the file is called."""
+    import os
+    from fusion_engine_client.parsers import fast_indexer
+    rng = ctx.rng
+    ic.rebind(80 * 1024, 16 * 1024)
+    for name in ('t.p1log', 'capture.bin', 'capture', 'input.raw', 'log.p1log.bak'):
+        a, _ = gen.small_file(rng, rng.choice([3, 5]), 64, 'VU')
+        variants = [('append', a + gen.frame(9, b'more', 50) + gen.frame(9, b'', 51)), ('replace-shorter', gen.frame(9, b'xyz', 60)),
+                    ('replace-same-size', bytes(reversed(a)))]
+        for what, b in variants:
+            path = ic.write_log(a, 'c08_hist_' + name)
+            p1i = os.path.splitext(path)[0] + '.p1i'
+            for f in (p1i,):
+                if os.path.exists(f):
+                    os.remove(f)
+            try:
+                fast_indexer.fast_generate_index(path, num_threads=1)                # defaults: save_index=True
+                with open(path, 'wb') as f:
+                    f.write(b)
+                idx = fast_indexer.fast_generate_index(path, num_threads=1)          # defaults: may load the saved index
+                got = [int(x) for x in idx.offset.tolist()]
+            except BaseException as e:
+                ctx.violation('C08/indexing-raised', 'fast_generate_index raised %s: %s' % (type(e).__name__, e),
+                              {'file_name': name, 'first_content': a.hex(), 'second_content': b.hex(), 'history': what})
+                continue
+            want = []
+            o = 0
+            while o < len(b):                                                        # sequential scan of the new content
+                n = ic.valid_at(b, o)
+                if n:
+                    want.append(o)
+                    o += n
+                else:
+                    o += 1
+            ctx.count('reindex_after_change_cases')
+            if what != 'replace-same-size' and got != want:
+                ctx.violation('C08/index-of-earlier-content-returned', 'file %r: indexed, then %s, then indexed again with the default '
+                              'options: offsets %s, the sequential scan of the current content accepts %s' % (name, what, got[:12], want[:12]),
+                              {'file_name': name, 'first_content': a.hex(), 'second_content': b.hex(), 'history': what})
+            for f in (path, p1i):
+                if os.path.exists(f):
+                    os.remove(f)
 
 
 def judge(ctx, replay0, results, data, nts, outs):
@@ -109,6 +164,7 @@ def run(ctx, budget, findings_tokens=True):
     base, _ = gen.small_file(rng, 3, M, 'VUW')
     for shift in range(0, R + 2, 1 if ctx.thorough else 3):
         files.append((bytes(shift) + base, 'shift%d' % shift, R, M))
+    reindex_histories(ctx)
     for r in fv.corpus('C08'):      # regression corpus first
         if 'file' in r:
             one_file(ctx, bytes.fromhex(r['file']), 'corpus', r.get('R', 64), r.get('M', 64), sorted(set([1, r.get('num_threads', 2), 16])), lines, pending)
